@@ -86,13 +86,30 @@ int next_backend_desc = 0;
  * @returns pointer to a registered liberasurecode instance
  * The caller must hold active_instances_rwlock
  */
-ec_backend_t liberasurecode_backend_instance_get_by_desc(int desc)
+static ec_backend_t liberasurecode_backend_instance_get_by_desc_locked(int desc)
 {
     struct ec_backend *b = NULL;
     SLIST_FOREACH(b, &active_instances, link) {
         if (b->idesc == desc)
             break;
     }
+    return b;
+}
+
+/**
+ * Look up a backend instance by descriptor
+ *
+ * @returns pointer to a registered liberasurecode instance
+ * Takes active_instances_rwlock in shared mode for the duration of the
+ * lookup, the caller must not hold it
+ */
+ec_backend_t liberasurecode_backend_instance_get_by_desc(int desc)
+{
+    struct ec_backend *b = NULL;
+    if (rwlock_rdlock(&active_instances_rwlock) != 0)
+        return NULL;
+    b = liberasurecode_backend_instance_get_by_desc_locked(desc);
+    rwlock_unlock(&active_instances_rwlock);
     return b;
 }
 
@@ -107,7 +124,7 @@ int liberasurecode_backend_alloc_desc(void)
     for (;;) {
         if (++next_backend_desc <= 0)
             next_backend_desc = 1;
-        if (!liberasurecode_backend_instance_get_by_desc(next_backend_desc))
+        if (!liberasurecode_backend_instance_get_by_desc_locked(next_backend_desc))
             return next_backend_desc;
     }
 }
@@ -268,6 +285,7 @@ int liberasurecode_instance_create(const ec_backend_id_t id,
 {
     ec_backend_t instance = NULL;
     struct ec_backend_args bargs;
+    int desc;
     if (!args)
         return -EINVALIDPARAMS;
 
@@ -313,9 +331,10 @@ int liberasurecode_instance_create(const ec_backend_id_t id,
     }
 
     /* Register instance and return a descriptor/instance id */
-    instance->idesc = liberasurecode_backend_instance_register(instance);
+    /* (instance->idesc is set under the registry lock by the callee) */
+    desc = liberasurecode_backend_instance_register(instance);
 
-    return instance->idesc;
+    return desc;
 }
 
 /**
